@@ -475,7 +475,11 @@ func (s *Store[H]) flushLoop(ctx context.Context) {
 				break
 			}
 
-			from, to := toFlush[0].Height(), toFlush[len(toFlush)-1].Height()
+			// the batch may be empty and carry the head/tail pointers only
+			var from, to uint64
+			if len(toFlush) > 0 {
+				from, to = toFlush[0].Height(), toFlush[len(toFlush)-1].Height()
+			}
 			log.Errorw("writing header batch", "try", i+1, "from", from, "to", to, "err", err)
 			s.metrics.flush(ctx, time.Since(startTime), s.pending.Len(), true)
 
